@@ -41,7 +41,7 @@ def tableOK {ρ α} (f : ρ → Except Err α) (row : Nat → ρ × Nat) (chunks
 
 /-- `LatticeConstraints.__init__` (lattice_lib.verify_hyperparameters with all constraint arguments) -/
 theorem accept_latticeConstraints :
-    tableOK latticeConstraints latticeConstraints_row latticeConstraints_chunks = true := by decide +kernel
+    tableOK latticeConstraintsFull latticeConstraintsFull_row latticeConstraintsFull_chunks = true := by decide +kernel
 /-- `LinearInitializer.__init__` (lattice verification incl. output bounds) -/
 theorem accept_linearInitializer :
     tableOK linearInitializer linearInitializer_row linearInitializer_chunks = true := by decide +kernel
@@ -56,23 +56,23 @@ theorem accept_torsionRegularizer :
     tableOK torsionRegularizer torsionRegularizer_row torsionRegularizer_chunks = true := by decide +kernel
 /-- `PWLCalibration.__init__` -/
 theorem accept_pwlCalibration :
-    tableOK pwlCalibration pwlCalibration_row pwlCalibration_chunks = true := by decide +kernel
+    tableOK pwlCalibrationFull pwlCalibrationFull_row pwlCalibrationFull_chunks = true := by decide +kernel
 theorem accept_pwlConstraints :
-    tableOK pwlConstraints pwlConstraints_row pwlConstraints_chunks = true := by decide +kernel
+    tableOK pwlConstraintsFull pwlConstraintsFull_row pwlConstraintsFull_chunks = true := by decide +kernel
 theorem accept_uniformOutputInitializer :
     tableOK uniformOutputInitializer uniformOutputInitializer_row uniformOutputInitializer_chunks = true := by
   decide +kernel
 /-- `LinearConstraints.__init__` (linear_lib.verify_hyperparameters) -/
 theorem accept_linearConstraints :
-    tableOK linearConstraints linearConstraints_row linearConstraints_chunks = true := by decide +kernel
+    tableOK linearConstraintsFull linearConstraintsFull_row linearConstraintsFull_chunks = true := by decide +kernel
 /-- `Linear.__init__` (broadcast of a scalar monotonicity + verification of the monotonicities AND,
 since fix 4a8f232, of `input_min` / `input_max`) -/
 theorem accept_linearLayer :
-    tableOK linearLayer linearLayer_row linearLayer_chunks = true := by decide +kernel
+    tableOK linearLayerFull linearLayerFull_row linearLayerFull_chunks = true := by decide +kernel
 /-- `Lattice.__init__`: first verification, wrapping of a bare joint unimodality, verification of the
 joint unimodalities (fix f995047), `create_kernel_initializer` with its initializer's own verification -/
 theorem accept_latticeLayer :
-    tableOK latticeLayer latticeLayer_row latticeLayer_chunks = true := by decide +kernel
+    tableOK latticeLayerFull latticeLayerFull_row latticeLayerFull_chunks = true := by decide +kernel
 /-- `CategoricalCalibrationConstraints.__init__` (bounds, pair shapes and ranges, and since fix 66006cc
 the round-based cycle check) — the table is the exhaustive cross product of its domains -/
 theorem accept_categoricalConstraints :
@@ -81,8 +81,16 @@ theorem accept_categoricalConstraints :
 /-- `CategoricalCalibration.__init__` — exhaustive cross product as well -/
 theorem accept_categoricalLayer :
     tableOK categoricalLayer categoricalLayer_row categoricalLayer_chunks = true := by decide +kernel
+/-- `CategoricalCalibration.__init__` with the arguments it only stores (`units`, `split_outputs`):
+sampled cross product -/
+theorem accept_categoricalLayerFull :
+    tableOK categoricalLayerFull categoricalLayerFull_row categoricalLayerFull_chunks = true := by decide +kernel
 /-- `KroneckerFactoredLattice.__init__` -/
-theorem accept_kflLayer : tableOK kflLayer kflLayer_row kflLayer_chunks = true := by decide +kernel
+theorem accept_kflLayer : tableOK kflLayerInt kflLayerInt_row kflLayerInt_chunks = true := by decide +kernel
+/-- `KroneckerFactoredLattice.__init__` followed by `build` on an input of the layer's own shape
+with `dims` input dimensions: the monotonicities are canonicalised (no `decreasing`) and their number
+compared with `dims` at build -/
+theorem accept_kflBuild : tableOK kflBuildRow kflBuildRow_row kflBuildRow_chunks = true := by decide +kernel
 /-- `RTL.__init__` (rtl_lib.verify_hyperparameters) -/
 theorem accept_rtlLayer : tableOK rtlLayer rtlLayer_row rtlLayer_chunks = true := by decide +kernel
 /-- `premade_lib.verify_config` on small model configs -/
